@@ -264,7 +264,10 @@ def shard(ctx):
                         judge_numeric_batch(ctx, [(v, f, s) for v in bv[st:st + 256]], c)
     # no-digit and odd spellings
     odd = ["&#", "&#;", "&#x", "&#x;", "&#X", "&#xg", "&#-1;", "&# 1;", "&#x 1;", "&#0x41;", "&#1a;", "&#xFFFFFFFFFF;",
-           "&#00000065;", "&#x0000041", "&#65x", "&#x41g", "&", "&;", "& ", "&&", "&&amp;", "&a", "&#65&#66"]
+           "&#00000065;", "&#x0000041", "&#65x", "&#x41g", "&", "&;", "& ", "&&", "&&amp;", "&a", "&#65&#66",
+           # very many digits (leading zeros do not change the value; long values are out of range)
+           "&#" + "0" * 5000 + "65;", "&#x" + "0" * 5000 + "41;", "&#" + "9" * 4301 + ";", "&#" + "1" * 20000, "&#x" + "f" * 5000 + ";",
+           "&#" + "0" * 4400 + ";", "&#999999999;", "&#0000000001114111;", "&#1114112;", "&#x00110000;"]
     for o in odd:
         for c in CONTEXTS:
             kb += 1
